@@ -26,12 +26,11 @@
         re-evaluated on every iteration).
       - `Option.Some(e)` (`enum_constructor` + `make_enum`), `Option.None`,
         `accept e` / `reject e` (the operand stays lazy until `make_enum` stores
-        it), `e?` (`question_mark`).
+        it), `e?` (`question_mark`); record literals (`record`) and field access (`access`).
   * the temporary counter `tmp_idx` (both `tmp()` and `undropped_tmp()` bump it).
 
   Not modelled in this version (`lowerE` returns `none`): script-function
-  calls, `match`, `for`, user enum constructors, records, field access, lists,
-  f-strings; the `stack_slots` bookkeeping and the `drop` instructions (they
+  calls, `match`, `for`, user enum constructors, lists, f-strings; the `stack_slots` bookkeeping and the `drop` instructions (they
   have no effect on the order of host calls).
 
   The semantics of structured MIR is the relation `ExecC` below (big-step, the
@@ -62,7 +61,8 @@ inductive Value
   | neg (x : Var)
   | callRt (f : Nat) (args : List Var)
   | disc (x : Var)                   -- `Value::Discriminant`
-  | cloneProj (x : Var) (i : Nat)    -- `Clone` of a place with one projection: field / variant field `i`
+  | cloneProj (x : Var) (i : Nat)    -- `Clone` of a place with one projection: variant field `i`
+  | cloneField (x : Var) (i : Nat)   -- `Clone` of `x.field_i` of a record
   deriving Repr, Inhabited
 
 /-- Structured MIR. -/
@@ -130,6 +130,7 @@ def evalValue (σ : Store) : Value → Option (Trace × Val)
     (hostSem f vs).map (fun v => ([⟨f, vs⟩], v))
   | .disc x => (discOf (σ x)).map (fun d => ([], .int d))
   | .cloneProj x i => (payload (σ x) i).map (fun v => ([], .int v))
+  | .cloneField x i => (payload (σ x) i).map (fun v => ([], .int v))
 
 inductive Outcome
   | normal (σ : Store)
@@ -308,7 +309,31 @@ def lowerE : Expr → Nat → Option (Code × Value × Nat)
     pure (ce ++ me ++ [.assign (.t c) (.disc xe),
                        .iteD (.t c) 0 [] [.setDisc (.t (c + 1)) (.opt none), .ret (.t (c + 1))]],
           .cloneProj xe 0, c + 2)
+  | .record fs, c => do
+    -- `record`: the result temporary is allocated first; each field is lowered and stored
+    -- (lazily, straight into the field) before the next one. The real MIR has no instruction
+    -- that creates the empty record; this untyped model starts from `{}` explicitly.
+    let (cf, c') ← lowerFields fs (.t c) 0 (c + 1)
+    pure ([.setDisc (.t c) (.recd [])] ++ cf, .move (.t c), c')
+  | .field (.var x) i, c =>
+    -- `x.f` is one path (`path_value` with a projection): a lazy read, like a variable
+    some ([], .cloneField (.x x) i, c)
+  | .field e i, c => do
+    -- `access`: the record is materialised, the field is read lazily
+    let (ce, ve, c) ← lowerE e c
+    let me := atvCode ve c
+    let xe := atvVar ve c
+    let c := atvNext ve c
+    pure (ce ++ me, .cloneField xe i, c)
   | _, _ => none
+
+/-- the fields of a record literal, in source order: field `i` lowered, then stored in `to.field_i` -/
+def lowerFields : Exprs → Var → Nat → Nat → Option (Code × Nat)
+  | .nil, _, _, c => some ([], c)
+  | .cons e es, to, i, c => do
+    let (ce, ve, c) ← lowerE e c
+    let (cs, c) ← lowerFields es to (i + 1) c
+    pure (ce ++ [.assignField to i ve] ++ cs, c)
 
 /-- receiver and arguments: each one lowered, then stored in a fresh temporary -/
 def lowerArgs : Exprs → Nat → Option (Code × List Var × Nat)
